@@ -51,8 +51,7 @@ namespace cnl::_impl {
                   }};
 
         if constexpr (InExponent < 0) {
-            for (int in_exponent = InExponent;
-                 in_exponent != 0 || (Precise && !(output.significand % OutRadix));) {
+            for (int in_exponent = InExponent; in_exponent != 0;) {
                 if (output.significand % InRadix) {
                     if (oob(output.significand)) {
                         if (Precise) {
@@ -67,6 +66,14 @@ namespace cnl::_impl {
 
                 output.significand /= InRadix;
                 in_exponent++;
+            }
+
+            if constexpr (Precise) {
+                // normalize: move trailing zeros of the significand into the exponent
+                while (!(output.significand % OutRadix)) {
+                    output.significand /= OutRadix;
+                    output.exponent++;
+                }
             }
         } else {
             for (int in_exponent = InExponent;
